@@ -43,23 +43,6 @@ Proof.
 Qed.
 
 (* ---------- xor ---------- *)
-Lemma xor_index_some scr : forall resp,
-  (length scr <= length resp)%nat ->
-  xor_index scr resp = Some (xor_bytes scr (firstn (length scr) resp)).
-Proof.
-  induction scr as [|s scr IH]; intros resp Hl; [reflexivity|].
-  destruct resp as [|r resp]; [cbn in Hl; lia|].
-  cbn [xor_index length firstn xor_bytes]. rewrite IH by (cbn in Hl; lia). reflexivity.
-Qed.
-
-Lemma xor_index_none scr : forall resp,
-  (length resp < length scr)%nat -> xor_index scr resp = None.
-Proof.
-  induction scr as [|s scr IH]; intros resp Hl; [cbn in Hl; lia|].
-  destruct resp as [|r resp]; [reflexivity|].
-  cbn [xor_index]. rewrite IH by (cbn in Hl; lia). reflexivity.
-Qed.
-
 Lemma xor_bytes_length a : forall b, length a = length b -> length (xor_bytes a b) = length a.
 Proof.
   induction a as [|x a IH]; intros [|y b] Hl; cbn in *; try lia. rewrite IH; lia.
@@ -85,10 +68,10 @@ Section WithHash.
   Variable H : bytes -> bytes.
   Hypothesis H_len : forall x, length (H x) = 20%nat.
 
-  Lemma validate_empty_resp salt auth : validate H [] salt auth = Ret false.
+  Lemma validate_empty_resp salt auth : validate H [] salt auth = false.
   Proof. reflexivity. Qed.
 
-  Lemma validate_empty_auth resp salt : validate H resp salt [] = Ret false.
+  Lemma validate_empty_auth resp salt : validate H resp salt [] = false.
   Proof. destruct resp; reflexivity. Qed.
 
   (* the shape of validate once both arguments are non-empty *)
@@ -96,91 +79,76 @@ Section WithHash.
     resp <> [] -> auth <> [] ->
     validate H resp salt auth =
       match hex_decode (strip_star auth) with
-      | None => Ret false
+      | None => false
       | Some hash =>
-          match xor_index (H (salt ++ hash)) resp with
-          | None => Panic
-          | Some stage1 => Ret (beqb (H stage1) hash)
-          end
+          if Nat.ltb (length resp) 20 then false
+          else beqb (H (xor_bytes (H (salt ++ hash)) (firstn 20 resp))) hash
       end.
-  Proof. destruct resp; [congruence|]. destruct auth; [congruence|]. reflexivity. Qed.
-
-  Theorem validate_accept_iff resp salt auth :
-    (20 <= length resp)%nat ->
-    (validate H resp salt auth = Ret true <->
-     auth <> [] /\ exists hash, hex_decode (strip_star auth) = Some hash /\
-                                H (xor_bytes (H (salt ++ hash)) (firstn 20 resp)) = hash).
   Proof.
-    intros Hl. assert (Hr : resp <> []) by (destruct resp; [cbn in Hl; lia|discriminate]).
-    destruct auth as [|a auth].
-    - rewrite validate_empty_auth. split; [discriminate|]. intros [F _]. congruence.
-    - rewrite validate_unfold by (auto; discriminate).
-      destruct (hex_decode (strip_star (a :: auth))) as [hash|].
-      + rewrite xor_index_some by (rewrite H_len; exact Hl). rewrite H_len.
-        split.
-        * intros E. injection E as E. apply beqb_eq in E. split; [discriminate|]. exists hash. auto.
-        * intros [_ [hash' [E1 E2]]]. injection E1 as <-. f_equal. apply beqb_eq. exact E2.
-      + split; [discriminate|]. intros [_ [hash' [E1 _]]]. discriminate.
+    destruct resp; [congruence|]. destruct auth; [congruence|]. intros _ _.
+    unfold validate. destruct (hex_decode _) as [hash|]; [|reflexivity]. cbv zeta. rewrite H_len. reflexivity.
   Qed.
 
-  Theorem validate_total_on_wellformed resp salt auth :
-    resp = [] \/ (20 <= length resp)%nat -> exists b, validate H resp salt auth = Ret b.
+  (* malformed credentials are rejected: every response shorter than the digest (the empty one included) gets [false] *)
+  Theorem validate_short_response_rejected resp salt auth :
+    (length resp < 20)%nat -> validate H resp salt auth = false.
   Proof.
-    intros [-> | Hl]; [exists false; reflexivity|].
-    assert (Hr : resp <> []) by (destruct resp; [cbn in Hl; lia|discriminate]).
-    destruct auth as [|a auth]; [exists false; apply validate_empty_auth|].
-    rewrite validate_unfold by (auto; discriminate).
-    destruct (hex_decode _) as [hash|]; [|exists false; reflexivity].
-    rewrite xor_index_some by (rewrite H_len; exact Hl). eexists. reflexivity.
+    intros Hl. destruct resp as [|r resp]; [reflexivity|]. destruct auth as [|a auth]; [reflexivity|].
+    rewrite validate_unfold by discriminate. destruct (hex_decode _); [|reflexivity].
+    destruct (Nat.ltb_spec (length (r :: resp)) 20); [reflexivity|lia].
+  Qed.
+
+  (* for EVERY response: accepted iff it has at least 20 bytes, the stored string decodes to a hash, and the first 20
+     bytes open the scramble to a preimage of that hash (bytes beyond the 20th are ignored, as in the code) *)
+  Theorem validate_accept_iff resp salt auth :
+    validate H resp salt auth = true <->
+    auth <> [] /\ (20 <= length resp)%nat /\
+    exists hash, hex_decode (strip_star auth) = Some hash /\
+                 H (xor_bytes (H (salt ++ hash)) (firstn 20 resp)) = hash.
+  Proof.
+    destruct (Nat.lt_ge_cases (length resp) 20) as [Hs|Hl].
+    - rewrite validate_short_response_rejected by exact Hs. split; [discriminate|]. intros [_ [Hc _]]. lia.
+    - assert (Hr : resp <> []) by (destruct resp; [cbn in Hl; lia|discriminate]).
+      destruct auth as [|a auth].
+      + rewrite validate_empty_auth. split; [discriminate|]. intros [F _]. congruence.
+      + rewrite validate_unfold by (auto; discriminate).
+        destruct (hex_decode (strip_star (a :: auth))) as [hash|].
+        * destruct (Nat.ltb_spec (length resp) 20) as [F|_]; [lia|]. split.
+          -- intros E. apply beqb_eq in E. split; [discriminate|]. split; [exact Hl|]. exists hash. auto.
+          -- intros [_ [_ [hash' [E1 E2]]]]. injection E1 as <-. apply beqb_eq. exact E2.
+        * split; [discriminate|]. intros [_ [_ [hash' [E1 _]]]]. discriminate.
   Qed.
 
   (* accepting a 20-byte response = the client exhibited a preimage of the stored hash, masked by the scramble *)
   Theorem validate_accept_preimage resp salt auth :
     length resp = 20%nat ->
-    (validate H resp salt auth = Ret true <->
+    (validate H resp salt auth = true <->
      auth <> [] /\ exists hash stage1, hex_decode (strip_star auth) = Some hash /\ length stage1 = 20%nat /\
                                        H stage1 = hash /\ resp = xor_bytes stage1 (H (salt ++ hash))).
   Proof.
-    intros Hl. rewrite validate_accept_iff by lia. rewrite (firstn_all' resp) by auto.
-    split; intros [Ha [hash Hx]]; (split; [exact Ha|]).
-    - destruct Hx as [Hd He]. exists hash, (xor_bytes (H (salt ++ hash)) resp).
+    intros Hl. rewrite validate_accept_iff. rewrite (firstn_all' resp) by auto.
+    split.
+    - intros [Ha [_ [hash [Hd He]]]]. split; [exact Ha|]. exists hash, (xor_bytes (H (salt ++ hash)) resp).
       split; [exact Hd|]. split; [rewrite xor_bytes_length; rewrite H_len; auto|].
       split; [exact He|].
       rewrite (xor_bytes_comm (H (salt ++ hash)) resp).
       rewrite xor_bytes_invol; [reflexivity|rewrite H_len; exact Hl].
-    - destruct Hx as [stage1 [Hd [Hs [He Hr]]]]. exists hash. split; [exact Hd|].
+    - intros [Ha [hash [stage1 [Hd [Hs [He Hr]]]]]]. split; [exact Ha|]. split; [lia|]. exists hash. split; [exact Hd|].
       rewrite Hr, (xor_bytes_comm (H (salt ++ hash))), xor_bytes_invol; [exact He|].
       rewrite H_len; exact Hs.
-  Qed.
-
-  (* the defect: a non-empty response shorter than the digest makes the function index out of range *)
-  Theorem validate_short_response_panics resp salt auth hash :
-    resp <> [] -> (length resp < 20)%nat -> auth <> [] -> hex_decode (strip_star auth) = Some hash ->
-    validate H resp salt auth = Panic.
-  Proof.
-    intros Hr Hl Ha Hd. rewrite validate_unfold by auto. rewrite Hd.
-    rewrite xor_index_none by (rewrite H_len; exact Hl). reflexivity.
-  Qed.
-
-  Theorem validate_malformed_rejected_refuted :
-    exists resp salt auth, resp <> [] /\ (length resp < 20)%nat /\ validate H resp salt auth <> Ret false.
-  Proof.
-    exists [1], [], [42; 48; 48]. split; [discriminate|]. split; [cbn; lia|].
-    rewrite (validate_short_response_panics [1] [] [42;48;48] [0]); try discriminate; try reflexivity.
-    cbn; lia.
   Qed.
 
   Hypothesis H_byte : forall x, Forall (fun b => b < 256) (H x).
 
   Theorem honest_client_accepted salt pw :
-    pw <> [] -> validate H (client_response H salt pw) salt (stored_auth H pw) = Ret true.
+    pw <> [] -> validate H (client_response H salt pw) salt (stored_auth H pw) = true.
   Proof.
     intros Hp. destruct pw as [|c pw]; [congruence|].
     set (p := c :: pw). change (client_response H salt p) with (xor_bytes (H p) (H (salt ++ H (H p)))).
     change (stored_auth H p) with (42 :: hex_encode (H (H p))).
     assert (Hlen : length (xor_bytes (H p) (H (salt ++ H (H p)))) = 20%nat)
       by (rewrite xor_bytes_length; rewrite !H_len; reflexivity).
-    apply validate_accept_iff; [lia|]. split; [discriminate|].
+    apply validate_accept_iff. split; [discriminate|]. split; [lia|].
     exists (H (H p)). split.
     - change (strip_star (42 :: hex_encode (H (H p)))) with (hex_encode (H (H p))).
       apply hex_decode_encode, H_byte.
@@ -397,7 +365,7 @@ Section Login.
   Hypothesis H_len : forall x, length (H x) = 20%nat.
 
   Definition credentials_ok (u : user) (salt resp : bytes) : Prop :=
-    (u_auth u = [] /\ resp = []) \/ (u_auth u <> [] /\ validate H resp salt (u_auth u) = Ret true).
+    (u_auth u = [] /\ resp = []) \/ (u_auth u <> [] /\ validate H resp salt (u_auth u) = true).
 
   Theorem login_accept_iff users name host salt resp n h :
     login H true users name host salt resp = Accept n h <->
@@ -416,12 +384,10 @@ Section Login.
         * intros [u' [E [_ [_ [-> ->]]]]]. injection E as <-. reflexivity.
       + split; [discriminate|]. intros [u' [E [_ [C _]]]]. injection E as <-. rewrite A in C.
         destruct C as [[_ C]|[C _]]; [discriminate|congruence].
-    - destruct (validate H resp salt (a :: au)) as [[|]|] eqn:V.
+    - destruct (validate H resp salt (a :: au)) eqn:V.
       + split.
         * intros E. injection E as <- <-. exists u. rewrite A. repeat split; auto. right. split; [discriminate|exact V].
         * intros [u' [E [_ [_ [-> ->]]]]]. injection E as <-. reflexivity.
-      + split; [discriminate|]. intros [u' [E [_ [C _]]]]. injection E as <-. rewrite A in C.
-        destruct C as [[C _]|[_ C]]; [discriminate|congruence].
       + split; [discriminate|]. intros [u' [E [_ [C _]]]]. injection E as <-. rewrite A in C.
         destruct C as [[C _]|[_ C]]; [discriminate|congruence].
   Qed.
@@ -454,39 +420,26 @@ Section Login.
     - split; [split; discriminate|reflexivity].
   Qed.
 
-  Theorem login_no_panic_on_wellformed users name host salt resp en :
-    resp = [] \/ (20 <= length resp)%nat -> login H en users name host salt resp <> LPanic.
+  (* every attempt is either accepted or denied, and it is denied whenever the credentials are not valid for the
+     selected account: wrong, missing and malformed credentials alike *)
+  Theorem login_invalid_credentials_rejected users name host salt resp u :
+    get_user users name host = Some u -> ~ credentials_ok u salt resp ->
+    login H true users name host salt resp = Deny.
   Proof.
-    intros Hw. unfold login. destruct (negb en); [discriminate|].
-    destruct (get_user users name host) as [u|]; [|discriminate].
-    destruct (u_locked u); [discriminate|].
-    destruct (u_auth u) as [|a au]; [destruct resp; discriminate|].
-    destruct (validate_total_on_wellformed H H_len resp salt (a :: au) Hw) as [b ->].
-    destruct b; discriminate.
+    intros G Hc.
+    destruct (login H true users name host salt resp) as [n h|] eqn:E; [|reflexivity].
+    exfalso. apply login_accept_iff in E. destruct E as [u' [G' [_ [C _]]]].
+    rewrite G in G'. injection G' as <-. contradiction.
   Qed.
 
-  Theorem login_wrong_or_missing_rejected users name host salt resp u :
-    get_user users name host = Some u -> resp = [] \/ (20 <= length resp)%nat ->
-    ~ credentials_ok u salt resp -> login H true users name host salt resp = Deny.
+  (* malformed: a non-empty response shorter than the digest is denied whatever the account table *)
+  Theorem login_malformed_response_rejected users name host salt resp :
+    resp <> [] -> (length resp < 20)%nat -> login H true users name host salt resp = Deny.
   Proof.
-    intros G Hw Hc.
-    destruct (login H true users name host salt resp) as [n h| |] eqn:E; [|reflexivity|].
-    - exfalso. apply login_accept_iff in E. destruct E as [u' [G' [_ [C _]]]].
-      rewrite G in G'. injection G' as <-. contradiction.
-    - exfalso. exact (login_no_panic_on_wellformed _ _ _ _ _ _ Hw E).
-  Qed.
-
-  Theorem login_malformed_rejected_refuted :
-    exists users name host salt resp,
-      resp <> [] /\ (length resp < 20)%nat /\ login H true users name host salt resp = LPanic.
-  Proof.
-    exists [mkUser [117] [37] [42;48;48] false s_native], [117], [104], [], [1].
-    split; [discriminate|]. split; [cbn; lia|].
-    unfold login. cbn [negb].
-    replace (get_user _ [117] [104]) with (Some (mkUser [117] [37] [42;48;48] false s_native)) by reflexivity.
-    cbn [u_locked u_auth].
-    rewrite (validate_short_response_panics H H_len [1] [] [42;48;48] [0]); try discriminate; try reflexivity.
-    cbn; lia.
+    intros Hr Hl.
+    destruct (login H true users name host salt resp) as [n h|] eqn:E; [|reflexivity].
+    exfalso. apply login_accept_iff in E. destruct E as [u [_ [_ [[[_ C]|[_ C]] _]]]]; [contradiction|].
+    rewrite (validate_short_response_rejected H H_len) in C by exact Hl. discriminate.
   Qed.
 
   Hypothesis H_byte : forall x, Forall (fun b => b < 256) (H x).
